@@ -221,8 +221,16 @@ package server
 // ribReady: the RIB's representation invariants hold and this call chain holds none of its locks.
 //@ pred ribReady(r *rib.RIB) = holdersWF(r) && pendingWF(r) && ribQuiet(r) && rib.unixTS != nil
 
+// heldFor: the session each held (accepted but unresolved) operation was received from. C06: no
+// stream carries a result for an operation that was not sent on it - every result of a response is
+// for the operation itself or for an operation held for this very session.
+//@ ghostvar heldFor IntStrMap
 //@ unit modifyEntry
 //@ requires r != nil ==> ribReady(r)
+//@ requires[C06.held-owned] r != nil && election != nil ==> (forall k in dom(r.pendingEntries) :: heldFor[k] == election.client)
+//@ at "if ribFatalErr != nil {" ghost heldFor = store(heldFor, op.Id, election.client)
+//@ ensures[C06.own-results-only] result0 != nil && election != nil ==> (forall i in 0..len(result0.Result) :: result0.Result[i].Id == op.Id || old(heldFor)[result0.Result[i].Id] == election.client)
+//@ ensures[C06.held-owned-after] r != nil && election != nil ==> (forall k in dom(r.pendingEntries) :: heldFor[k] == election.client)
 //@ requires[wire-valid] op != nil ==> opWF(op)
 //@ requires[own-instance] op != nil ==> ni == op.GetNetworkInstance()
 //@ ensures[nil-op] op == nil ==> result1 != nil && result0 == nil
@@ -237,10 +245,12 @@ package server
 //@ ensures[statuses] result0 != nil ==> statusesKnown(result0.Result)
 //@ ensures[shape] result0 != nil ==> result0.ElectionId == nil && result0.SessionParamsResult == nil
 //@ loop 1 at "range oks" invariant fibOnlyAfterRib(results) && ribThenFib(results, fibACK) && statusesKnown(results)
+//@ loop 1 invariant[C06.own-results] forall i in 0..len(results) :: results[i].Id == op.Id || old(heldFor)[results[i].Id] == election.client
+//@ loop 2 invariant[C06.own-results] forall i in 0..len(results) :: results[i].Id == op.Id || old(heldFor)[results[i].Id] == election.client
 //@ loop 1 invariant resultsOK(oks) && resultsOK(faileds) && op != nil
 //@ loop 2 at "range faileds" invariant fibOnlyAfterRib(results) && ribThenFib(results, fibACK) && statusesKnown(results)
 //@ loop 2 invariant resultsOK(faileds) && op != nil
-//@ assigns ribState, spawned, hookCount
+//@ assigns ribState, spawned, hookCount, heldFor
 //@ props C04 C06 C01 C12:safety C12:ensures#nil-op C12:ensures#bad-op-type C12:ensures#unauthorised-no-rib C12:ensures#unauthorised-answer C12:ensures#one-of
 
 //@ pred resultsOK(rs []*rib.OpResult) = forall i in 0..len(rs) :: rs[i] != nil
@@ -264,7 +274,7 @@ package server
 //@ loop 1 at "range ops" invariant len(sent(resCh)) + len(sent(errCh)) == old(len(sent(resCh))) + old(len(sent(errCh))) + loopi
 //@ loop 1 invariant len(sent(errCh)) >= old(len(sent(errCh))) && len(sent(resCh)) >= old(len(sent(resCh)))
 //@ loop 1 invariant ribReady(s.masterRIB) && s.masterRIB != nil && supportedSession(cs) && elec != nil
-//@ assigns sent(resCh), sent(errCh), ribState, spawned, hookCount
+//@ assigns sent(resCh), sent(errCh), ribState, spawned, hookCount, heldFor
 //@ props C06 C04 C09 C12:safety C12:ensures#unknown-client C12:ensures#unsupported-mode C12:ensures#one-answer-per-op C12:ensures#rib-ready
 
 //@ fnfield unixTS
@@ -337,7 +347,7 @@ package server
 //@ ensures[multi-field-no-effect] lastMulti ==> len(sent(resultChan)) == resAtRecv && ribState == ribAtRecv && s.curElecID == elecAtRecv && s.curMaster == masterAtRecv
 //@ ensures[ends-with-verdict] len(sent(errCh)) > old(len(sent(errCh)))
 //@ ensures[other-sessions-untouched] forall k in old(dom(s.cs)) :: k != cid ==> k in dom(s.cs) && s.cs[k] == old(s.cs[k])
-//@ assigns sent(errCh), sent(resultChan), ribState, hookCount, spawned, s.curElecID, s.curMaster, s.cs[cid].params, s.cs[cid].setParams, s.cs[cid].lastElecID, nRecv, lastMulti, resAtRecv, ribAtRecv, elecAtRecv, masterAtRecv
+//@ assigns sent(errCh), sent(resultChan), ribState, hookCount, spawned, s.curElecID, s.curMaster, s.cs[cid].params, s.cs[cid].setParams, s.cs[cid].lastElecID, nRecv, lastMulti, resAtRecv, ribAtRecv, elecAtRecv, masterAtRecv, heldFor
 //@ props C09 C12:safety C11:lock C12:ensures#multi-field-rejected C12:ensures#multi-field-no-effect C12:ensures#other-sessions-untouched
 
 // Server.Get: the consumer side of Get. One producer (doGet) is started; every response taken from
